@@ -202,13 +202,18 @@ PROPERTIES = {
                 "(b) attribute extremes, (c) raw packet bytes and odd identifiers, (d) histories driving statistics to the "
                 "256-bit bound; every case goes through the whole transfer stack of the real SimApp on a state branch. "
                 "Non-trivial = the input got past the ICS-20 decode and the receiver test (reached the payload parser or "
-                "later); distinct = by hash of the packet data / history.",
+                "later); distinct = by hash of the packet data / history. Thorough tier adds a native coverage-guided campaign "
+                "(go test -fuzz FuzzPacket, 180 s, all cores) over (packet data bytes, source port, source channel) through "
+                "IBCAdapter.ParsePacket with the oracle inside the target: no panic, repeatable result and error text, an accepted "
+                "packet's receiver decodes to the orbiter account and its memo is well-formed, an ICS-20 packet for the orbiter account "
+                "is never classified as foreign traffic.",
         "assumptions": COMMON_ASSUMPTIONS,
         "tests": [
             {"test": "TestC14MutatedMemo", "quick": 6000, "thorough": 3200000},
             {"test": "TestC14Attributes", "quick": 4000, "thorough": 2400000},
             {"test": "TestC14RawPacket", "quick": 4000, "thorough": 2400000},
             {"test": "TestC14History", "quick": 300, "thorough": 128000},
+            {"test": "FuzzPacket", "kind": "fuzz", "pkg": "light", "fuzztime_s": 180, "tiers": ["thorough"]},
         ],
     },
 }
@@ -242,11 +247,15 @@ PROPERTIES["C16"] = {
             "shows what ICS-20 does (error / release of coin (D,A) from escrow / mint of a voucher); the orbiter run may succeed only when ICS-20 "
             "released from escrow and D is the packet denom minus the single own prefix, and then recipient delta, escrow delta and recorded "
             "statistics must be exactly (D,A). Unit test: RecoverNativeDenom vs the transfer module's ReceiverChainIsSource/ParseDenomTrace. "
+            "Thorough tier adds the native coverage-guided campaign FuzzPacket (180 s) with the coin oracle inside the target: an accepted "
+            "packet's denom carries the packet's own port/channel prefix exactly once more than a Noble-native denom, the coin acted on is "
+            "(denom minus that prefix, amount as ICS-20 reads it). "
             "Non-trivial = a denom with >= 1 hop; distinct by (denom, port, channel).",
     "assumptions": COMMON_ASSUMPTIONS,
     "tests": [
         {"test": "TestC16Differential", "quick": 5000, "thorough": 2000000},
         {"test": "TestC16Unit", "quick": 30000, "thorough": 4000000},
+        {"test": "FuzzPacket", "kind": "fuzz", "pkg": "light", "fuzztime_s": 180, "tiers": ["thorough"]},
     ],
 }
 
@@ -277,10 +286,16 @@ PROPERTIES["C10"] = {
             "authority bytes, truncated authority, authority with padding) x bodies (hand-written VALID bodies of the eight known messages, so "
             "the signer is the only reason to fail, and reflection-filled bodies for any message). Oracle: error and unchanged digest of every "
             "store; signed by the authority with a valid body the same message succeeds and changes state. Every RPC x signer-class cell must be "
-            "hit. Non-trivial = a case with a valid body; distinct by (RPC, signer, body).",
+            "hit. TestC10Wiring quantifies over the CONFIGURATION as well: the application is built through the module's dependency-injection "
+            "provider with `authority:` set to a module name (gov, upgrade, authority, orbiter, ...) or to an address; the account the value "
+            "denotes is derived independently (bech32 address of this chain = itself, otherwise sha256(name)[:20]) and the same matrix is run: "
+            "that account succeeds with valid content, every other signer (the default simapp authority, the orbiter/gov/upgrade module accounts, "
+            "the raw configuration string, users, empty) is refused with all stores unchanged. "
+            "Non-trivial = a case with a valid body; distinct by (configuration, RPC, signer, body).",
     "assumptions": COMMON_ASSUMPTIONS + ["the positive half (authority + valid body succeeds) covers the known messages; ReplaceDepositForBurn's positive half is C05's real replacement",
                                          "the authority written in another bech32 spelling is a don't-care"],
-    "tests": [{"test": "TestC10Authority", "quick": 4000, "thorough": 1200000}],
+    "tests": [{"test": "TestC10Authority", "quick": 4000, "thorough": 1200000},
+              {"test": "TestC10Wiring", "quick": 1500, "thorough": 400000}],
 }
 
 PROPERTIES["C13"] = {
